@@ -85,6 +85,8 @@ class Prop(PropBase):
             # same values, other memory layout: Fortran order, or a transposed view of the transposed copy
             b = np.asfortranarray(b) if case["seed"] % 4 == 1 else np.ascontiguousarray(b.T).T
         q = (b * (case["rate"] / N) * u.Hz).to(u.Unit(case["unit"]))
+        if case["seed"] % 7 == 3:
+            q = q.astype(np.float32)          # a single-precision Quantity: its values are what they are, the arithmetic stays double
         # the doubles the code derives: ft = (shift[ix] * z.dt).to_value(one); a = ft * len(x)
         sh = q.to(u.Hz)
         if sh.isscalar:
